@@ -79,7 +79,7 @@ func readCSV(b []byte) (records [][]string, ok bool) {
 var csvRowInts = []int64{0, -12, 9223372036854775807}
 
 // ndCSVCell draws a scalar: NULL, Boolean, one of three Ints, a String of <= strLen arbitrary
-// bytes, and returns it with the text its CSV field must decode to.
+// bytes (strLen = 0: one of csvRowStrs), and returns it with the text its CSV field must decode to.
 func ndCSVCell(name string, strLen int) (octosql.Value, string) {
 	switch zzverif.Choice(name+".kind", 4) {
 	case 0:
@@ -93,9 +93,16 @@ func ndCSVCell(name string, strLen int) (octosql.Value, string) {
 		x := csvRowInts[zzverif.Choice(name+".i", len(csvRowInts))]
 		return octosql.NewInt(x), strconv.FormatInt(x, 10)
 	}
+	if strLen == 0 {
+		s := csvRowStrs[zzverif.Choice(name+".s", len(csvRowStrs))]
+		return octosql.NewString(s), s
+	}
 	s := zzverif.Bytes(name+".s", strLen)
 	return octosql.NewString(s), s
 }
+
+// csvRowStrs: the strings used with S=0.
+var csvRowStrs = []string{"", "x", "a,b", "\"", " y", "l1\nl2", "\r"}
 
 // VerifC25CSVRows: ROWS records of COLS scalar columns through one CSVFormatter. The output is the
 // header record (the column names) followed by one record per row, each with COLS fields that
